@@ -24,7 +24,18 @@ pub enum TOp {
 }
 
 #[derive(Clone, Debug, Serialize, Deserialize)]
+pub struct LongHaul {
+    pub tcora: u8,
+    pub tcorb: u8,
+    pub charge: u8,
+    pub updates: u32,
+}
+
+#[derive(Clone, Debug, Serialize, Deserialize)]
 pub struct Scn {
+    /// Some: the scenario is the long haul (ops is empty)
+    #[serde(default)]
+    pub long_haul: Option<LongHaul>,
     pub ops: Vec<TOp>,
     /// how the twin re-cuts elapsed time: 0 = all ones, 1 = all 255, other = seeded random
     pub twin_cut: u64,
@@ -68,6 +79,21 @@ enum RunErr {
 
 /// Execute the ops against the real code. With `oracle` the phase oracle runs in lockstep.
 fn run_ops(ops: &[TOp], with_oracle: bool, stats: &mut Stats, sig: &mut Fnv) -> Result<Trace, RunErr> {
+    run_ops_it(ops.iter().cloned(), with_oracle, stats, sig)
+}
+
+/// More than 2^32 states under ONE clock selection (/8192, no interrupt enabled, no clear source), cut into
+/// updates of `charge` states; the flags are cleared every 4000 updates so that every overflow and match is seen anew.
+fn long_haul_ops(lh: &LongHaul) -> impl Iterator<Item = TOp> + '_ {
+    let head = vec![TOp::Write { reg: TCORA, val: lh.tcora }, TOp::Write { reg: TCORB, val: lh.tcorb }, TOp::Write { reg: TCR, val: 0x03 }];
+    let body = (0..lh.updates).flat_map(move |k| {
+        let clear = if k % 4000 == 3999 { Some(TOp::ClearFlags { mask: 0xe0, low: 0 }) } else { None };
+        std::iter::once(TOp::Elapse(lh.charge)).chain(clear)
+    });
+    head.into_iter().chain(body)
+}
+
+fn run_ops_it(ops: impl Iterator<Item = TOp>, with_oracle: bool, stats: &mut Stats, sig: &mut Fnv) -> Result<Trace, RunErr> {
     let mut cpu = Cpu::new();
     let mut oracle = PhaseOracle::new(TimerRegs::reset());
     let mut pend_len = 0usize;
@@ -75,7 +101,8 @@ fn run_ops(ops: &[TOp], with_oracle: bool, stats: &mut Stats, sig: &mut Fnv) -> 
     let mut in_elapse = false;
     let mut elapsed_in_epoch: u64 = 0;
     let mut prev_flags = 0u8;
-    for (i, op) in ops.iter().enumerate() {
+    for (i, op) in ops.enumerate() {
+        let op = &op;
         match op {
             TOp::Elapse(n) => {
                 in_elapse = true;
@@ -86,6 +113,10 @@ fn run_ops(ops: &[TOp], with_oracle: bool, stats: &mut Stats, sig: &mut Fnv) -> 
                 cpu.verif_update_modules(*n).map_err(|e| RunErr::Fail(Failure::new("error", format!("op {}: update_modules({}) returned Err: {:#}", i, n, e))))?;
                 elapsed_in_epoch += *n as u64;
                 let pend = cpu.verif_pending();
+                if pend.len() < pend_len {
+                    // nothing accepts requests in this component-level run: a request that was raised stays raised
+                    return Err(RunErr::Fail(Failure::new("phase", format!("op {} Elapse({}): the controller's queue went from {} to {} requests although nothing accepted one - a raised request was withdrawn", i, n, pend_len, pend.len()))));
+                }
                 let newv = &pend[pend_len..];
                 pend_len = pend.len();
                 let after = read_regs(&cpu);
@@ -227,6 +258,13 @@ impl Property for C17 {
     const ID: &'static str = "C17";
 
     fn generate(rng: &mut Rng, tier: Tier, _index: u64) -> Scn {
+        // one fixed run index per 800 000 is the long haul: 2^32 states and more under one clock selection
+        if _index % 800_000 == 31_337 {
+            let charge = *rng.pick(&[255u8, 255, 254, 251]);
+            let updates = ((1u64 << 32) / charge as u64) as u32 + rng.range(20_000, 60_000) as u32;
+            let a = rng.range(1, 254) as u8;
+            return Scn { long_haul: Some(LongHaul { tcora: a, tcorb: a.wrapping_add(rng.range(1, 200) as u8).max(1), charge, updates }), ops: vec![], twin_cut: 0, ext_clock: false };
+        }
         // swarm configuration for this run
         let n_ops = match tier {
             Tier::Quick => rng.range(3, 300),
@@ -347,12 +385,28 @@ impl Property for C17 {
                 ops.push(TOp::Elapse(n));
             }
         }
-        Scn { ops, twin_cut: rng.below(6), ext_clock }
+        Scn { long_haul: None, ops, twin_cut: rng.below(6), ext_clock }
     }
 
     fn execute(scn: &Scn, stats: &mut Stats) -> Verdict {
         let mut sig = Fnv::new();
         let mut local = Stats::new();
+        if let Some(lh) = &scn.long_haul {
+            if lh.tcora == lh.tcorb || lh.tcora == 0 || lh.tcorb == 0 || lh.charge == 0 {
+                return Verdict::Invalid("long haul parameters".into());
+            }
+            return match guarded(|| run_ops_it(long_haul_ops(lh), true, &mut local, &mut sig)) {
+                Err(p) => Verdict::Fail(Failure::keyed("panic", format!("{}:{}", p.file, p.msg), format!("panic at {}:{}: {}", p.file, p.line, p.msg))),
+                Ok(Err(RunErr::Invalid(why))) => Verdict::Invalid(why),
+                Ok(Err(RunErr::Fail(f))) => Verdict::Fail(f),
+                Ok(Ok(_)) => {
+                    bump(stats, "probe.long_haul_beyond_2_pow_32_states_under_one_clock_selection");
+                    add(stats, "sim_guest_states", lh.updates as u64 * lh.charge as u64);
+                    add(stats, "ticks_checked", *local.get("ticks_checked").unwrap_or(&0));
+                    Verdict::Pass { sig: sig.0 ^ 0x1f, nontrivial: true }
+                }
+            };
+        }
         let r = guarded(|| run_ops(&scn.ops, true, &mut local, &mut sig));
         let trace = match r {
             Err(p) => return Verdict::Fail(Failure::keyed("panic", format!("{}:{}", p.file, p.msg), format!("panic at {}:{}: {}", p.file, p.line, p.msg))),
